@@ -6,7 +6,7 @@ package main
 // the view of the parsed certificate (every field any translated rule reads, dumped by reflection, plus
 // ExtensionsMap). The Lean driver evaluates the regenerated terms on the same view.
 //
-//   bodies <bools> <ints> <strs> <lists> <exts>   →   one token per translated rule, in table order:
+//   bodies <bools> <ints> <strs> <lists> <exts> <times>   →   one token per translated rule, in table order:
 //                                                      P (panic) | N (CheckApplies = false) | <status>
 
 import (
@@ -33,6 +33,9 @@ func init() {
 	subs["bodies"] = subBodies
 }
 
+// statuses written in each translated body (from the terms), to report which were never reached
+var bodyStatuses map[string][]string
+
 type bodyField struct {
 	path string
 	kind string
@@ -51,7 +54,8 @@ func loadBodyFacts() (names []string, fields []bodyField, err error) {
 	var f struct {
 		Tables struct {
 			Bodies []struct {
-				Name string `json:"name"`
+				Name string      `json:"name"`
+				Body interface{} `json:"body"`
 			} `json:"bodies"`
 			Fields map[string]string `json:"body_fields"`
 		} `json:"tables"`
@@ -59,8 +63,28 @@ func loadBodyFacts() (names []string, fields []bodyField, err error) {
 	if err := json.Unmarshal(data, &f); err != nil {
 		return nil, nil, err
 	}
+	bodyStatuses = map[string][]string{}
+	var walk func(t interface{}, into map[string]bool)
+	walk = func(t interface{}, into map[string]bool) {
+		n, ok := t.([]interface{})
+		if !ok || len(n) == 0 {
+			return
+		}
+		if tag, _ := n[0].(string); tag == "ret" && len(n) == 2 {
+			into[fmt.Sprint(n[1])] = true
+			return
+		}
+		for _, c := range n[1:] {
+			walk(c, into)
+		}
+	}
 	for _, b := range f.Tables.Bodies {
 		names = append(names, b.Name)
+		st := map[string]bool{}
+		walk(b.Body, st)
+		for k := range st {
+			bodyStatuses[b.Name] = append(bodyStatuses[b.Name], k)
+		}
 	}
 	var keys []string
 	for k := range f.Tables.Fields {
@@ -111,7 +135,7 @@ func oidDots(v reflect.Value) string {
 }
 
 func bodyView(c *x509.Certificate, fields []bodyField) (string, bool) {
-	var bools, ints, strs, lists []string
+	var bools, ints, strs, lists, times []string
 	for id, f := range fields {
 		v, proj, ok := pathValue(c, f.path)
 		if !ok {
@@ -131,6 +155,12 @@ func bodyView(c *x509.Certificate, fields []bodyField) (string, bool) {
 			default:
 				ints = append(ints, fmt.Sprintf("%d=%d", id, v.Int()))
 			}
+		case "time":
+			tm, ok := v.Interface().(time.Time)
+			if !ok {
+				return "", false
+			}
+			times = append(times, fmt.Sprintf("%d=%d.%d", id, tm.Unix(), tm.Nanosecond()))
 		case "str":
 			s := v.String()
 			h := "-"
@@ -190,7 +220,7 @@ func bodyView(c *x509.Certificate, fields []bodyField) (string, bool) {
 		}
 		return strings.Join(xs, sep)
 	}
-	return "bodies\t" + j(bools, ",") + "\t" + j(ints, ",") + "\t" + j(strs, ",") + "\t" + j(lists, ";") + "\t" + j(exts, ","), true
+	return "bodies\t" + j(bools, ",") + "\t" + j(ints, ",") + "\t" + j(strs, ",") + "\t" + j(lists, ";") + "\t" + j(exts, ",") + "\t" + j(times, ","), true
 }
 
 func runRule(reg lint.Registry, name string, c *x509.Certificate) (tok string) {
@@ -396,6 +426,20 @@ func subBodies(out string, seed uint64, tier string, arg string) {
 		}
 	}
 	rep.Notes = append(rep.Notes, fmt.Sprintf("%d of %d rules showed at least two outcomes; single-outcome rules: %s", two, len(names), strings.Join(flat, " ")))
+	var unreached []string
+	nst, nreached := 0, 0
+	for _, n := range names {
+		for _, st := range bodyStatuses[n] {
+			nst++
+			if outcomes[n][st] {
+				nreached++
+			} else {
+				unreached = append(unreached, n+":"+st)
+			}
+		}
+	}
+	sort.Strings(unreached)
+	rep.Notes = append(rep.Notes, fmt.Sprintf("%d of %d (rule, status written in its body) pairs were reached by some view; not reached: %s", nreached, nst, strings.Join(unreached, " ")))
 	rep.write(filepath.Join(out, "report.json"))
 }
 
